@@ -25,7 +25,8 @@ ALTS = [(), ("x",), ("x", "y"), ("x", "x"), ("",)]
 CHAINS = ["", "x", "y", "w"]
 
 
-def make_ops():
+def make_ops(alts=None):
+    alts = ALTS if alts is None else alts
     ops = []
     for c in CHAINS:
         ops.append(("getRules", c))
@@ -34,13 +35,13 @@ def make_ops():
             for ign in (False, True):
                 ops.append((meth, tuple(names) if isinstance(names, list) else names, ign))
     for n in ("a", "b"):
-        for alt in ALTS:
+        for alt in alts:
             ops.append(("push", n, alt))
             for ref in NAMES:
                 ops.append(("before", ref, n, alt))
                 ops.append(("after", ref, n, alt))
     for ref in NAMES:
-        for alt in ALTS:
+        for alt in alts:
             ops.append(("at", ref, alt))
     return ops
 
@@ -202,8 +203,10 @@ def canon(r):
     return (rules, c)
 
 
-def bfs_ruler(maxr, start, acc, sub):
+def bfs_ruler(maxr, start, acc, sub, nalts=None):
     from markdown_it.ruler import Ruler
+
+    OPS = make_ops(ALTS[:nalts] if nalts else ALTS)
 
     seen = {}
     r0, _ = build(start, Ruler)
@@ -531,7 +534,7 @@ START3 = [("push", "a", ()), ("push", "b", ("x",)), ("push", "a", ("x", "y"))]
 
 def bounds(tier):
     th = tier == "thorough"
-    return {"ruler_ops": len(OPS), "names": NAMES, "alts": ALTS, "chains": CHAINS, "max_rules": 4 if th else 3,
+    return {"ruler_ops": len(OPS), "names": NAMES, "alts": ALTS, "chains": CHAINS, "max_rules": "3 with 5 alt shapes" + ("; 4 with 3 alt shapes" if th else ""),
             "starts": ["empty", START3], "fixpoint": True,
             "facade_ops": len(f_ops(not th)), "facade_reset_rules_nesting": 2 if th else 1,
             "facade_depth_cap": 6 if th else 4,
@@ -540,7 +543,10 @@ def bounds(tier):
 
 def shards(tier):
     th = tier == "thorough"
-    sh = [("ruler", 4 if th else 3, "empty"), ("ruler", 3, "start3")]
+    # (max rules, start, number of alt-list shapes): 4 rules only with the three plain alt shapes
+    sh = [("ruler", 3, "empty", 5), ("ruler", 3, "start3", 5)]
+    if th:
+        sh.append(("ruler", 4, "empty", 3))
     if th:
         for r in range(len(f_ops(False))):
             sh.append(("facade", 2, 6, False, r))
@@ -551,8 +557,8 @@ def shards(tier):
 
 def run_shard(sh, acc):
     if sh[0] == "ruler":
-        _, maxr, start = sh
-        bfs_ruler(maxr, [] if start == "empty" else START3, acc, "ruler-" + start)
+        _, maxr, start, nalts = sh
+        bfs_ruler(maxr, [] if start == "empty" else START3, acc, "ruler-" + start, nalts)
     else:
         _, ms, mdp, quick, root = sh
         bfs_facade(ms, mdp, quick, acc, root)
